@@ -25,7 +25,7 @@ func init() { streams["fsutil"] = runFsutil }
 //     segment; the same stated textually on the clean result; the result is clean;
 //   - for a url without "." / ".." segments: result == filepath.Join(base, url).
 
-var fsutilBases = []string{"/data", "/", ".", "..", "a/../..", "./x/", "/a//b/", "../x", "a", "/.."}
+var fsutilBases = []string{"/data", "/", ".", "..", "a/../..", "./x/", "/a//b/", "../x", "a", "/..", "/a", "/a/a"}
 
 type fsutilCase struct {
 	Base string `json:"base"`
